@@ -69,6 +69,13 @@ Proof.
   induction n as [|n IH]; intros [|i] Hi; try lia; cbn [repeat nth]; [reflexivity|]. apply IH. lia.
 Qed.
 
+Lemma first_unfinished_bound : forall ps k k', first_unfinished ps k = Some k' -> k <= k' < k + length ps.
+Proof.
+  induction ps as [|p ps IH]; intros k k' H; cbn [first_unfinished] in H; [discriminate|].
+  cbn [length]. destruct p; try (injection H as <-; lia).
+  apply IH in H. lia.
+Qed.
+
 (* ---------- frame lemmas for the state update functions ---------- *)
 Section Frame.
 Variable S : Type.
